@@ -12,6 +12,19 @@ use std::collections::HashMap;
 use std::io::Write;
 use std::path::PathBuf;
 
+/// file number STDF is a user file that happens to be called stdgates.inc; it is always included with a
+/// directory part (`./stdgates.inc`), which is NOT the built-in library
+const STDF: u32 = 77;
+fn fname(f: u32) -> String {
+    if f == STDF {
+        "stdgates.inc".to_string()
+    } else {
+        format!("f{f}.inc")
+    }
+}
+/// the working directory of the analysing process, as a directory number of its own (on no search list)
+const CWD: u32 = 999;
+
 #[derive(Clone, Debug)]
 enum Item {
     Mark(u32),
@@ -45,16 +58,21 @@ struct World {
 }
 impl World {
     fn dir(&self, d: u32) -> PathBuf {
-        self.root.join(format!("d{d}"))
+        if d == CWD {
+            self.root.join("cwd")
+        } else {
+            self.root.join(format!("d{d}"))
+        }
     }
     fn path(&self, d: u32, f: u32) -> PathBuf {
-        self.dir(d).join(format!("f{f}.inc"))
+        self.dir(d).join(fname(f))
     }
     fn resolve(&self, it: &Item) -> Option<(u32, u32)> {
         // reference resolver (cross-checked against the Coq model by the driver through the markers)
         match it {
             Item::Abs(d, f) => Some((*d, *f)),
-            Item::Rel(f) => self.dirs_in_force.iter().find(|d| self.present.contains(&(**d, *f))).map(|d| (*d, *f)),
+            // not found in any search directory: the path as written, i.e. relative to the working directory
+            Item::Rel(f) => self.dirs_in_force.iter().find(|d| self.present.contains(&(**d, *f))).map(|d| (*d, *f)).or(if self.present.contains(&(CWD, *f)) { Some((CWD, *f)) } else { None }),
             _ => None,
         }
     }
@@ -67,7 +85,7 @@ impl World {
                 Item::Abs(..) | Item::Rel(..) => {
                     let written = match it {
                         Item::Abs(d, f) => self.path(*d, *f).display().to_string(),
-                        Item::Rel(f) => format!("f{f}.inc"),
+                        Item::Rel(f) => if *f == STDF { "./stdgates.inc".to_string() } else { format!("f{f}.inc") },
                         _ => unreachable!(),
                     };
                     let target = self.resolve(it).filter(|t| self.present.contains(t));
@@ -108,6 +126,10 @@ pub fn run(args: &[String]) {
                 if rng.below(5) < 2 {
                     present.push((d, f));
                 }
+            }
+            // a file of the same name in the working directory
+            if rng.below(4) == 0 {
+                present.push((CWD, f));
             }
         }
         // which includer each file has: 0 = main, k = file k-1 (only lower-numbered files include higher ones), none
@@ -161,6 +183,16 @@ pub fn run(args: &[String]) {
             }
             content.insert((d, f), v);
         }
+        // a user file called stdgates.inc, in some directories
+        if rng.below(4) == 0 {
+            for d in 0..ndirs {
+                if rng.below(3) == 0 {
+                    present.push((d, STDF));
+                    tag += 1;
+                    content.insert((d, STDF), vec![Item::Mark(tag)]);
+                }
+            }
+        }
         let mut main = vec![Item::Mark(1)];
         if rng.below(3) == 0 {
             main.push(Item::Std);
@@ -177,6 +209,9 @@ pub fn run(args: &[String]) {
                     main.push(include_item(&mut rng, f));
                 }
             }
+        }
+        if rng.below(5) == 0 {
+            main.push(Item::Rel(STDF));
         }
         // mode: search list / environment / neither
         let mut order: Vec<u32> = (0..ndirs).collect();
@@ -201,6 +236,8 @@ pub fn run(args: &[String]) {
         for d in 0..ndirs {
             std::fs::create_dir_all(world.dir(d)).unwrap();
         }
+        std::fs::create_dir_all(world.dir(CWD)).unwrap();
+        std::env::set_current_dir(world.dir(CWD)).unwrap();
         for (&(d, f), items) in &content {
             std::fs::write(world.path(d, f), world.text_of(items, false, 0)).unwrap();
         }
@@ -221,13 +258,14 @@ pub fn run(args: &[String]) {
             _ => run_sema_with(&inlined, None),
         };
         std::env::remove_var("QASM3_PATH");
+        std::env::set_current_dir(root.parent().unwrap()).unwrap();
         let fs_s = if present.is_empty() { "-".to_string() } else { present.iter().map(|(d, f)| format!("{d}:{f}")).collect::<Vec<_>>().join(",") };
         let mut keys: Vec<&(u32, u32)> = content.keys().collect();
         keys.sort();
         let cont_s = if keys.is_empty() { "-".to_string() } else { keys.iter().map(|k| format!("{}:{}={}", k.0, k.1, enc_items(&content[k]))).collect::<Vec<_>>().join(";") };
         let head = format!("inc\t{fs_s}\t{mode_s}\t{cont_s}\t{}", enc_items(&main));
         if let Some(p) = &o.panic {
-            writeln!(w, "{head}\tPANIC\tFAIL C18: analysis of a program with includes panicked: {} ;; {}", &p[..p.len().min(100)], text.replace('\n', "\\n")).unwrap();
+            writeln!(w, "{head}\tPANIC\tFAIL C18,C03: analysis of a program with includes panicked: {} ;; {}", &p[..p.len().min(100)], text.replace('\n', "\\n")).unwrap();
             let _ = std::fs::remove_dir_all(&root);
             continue;
         }
@@ -244,7 +282,7 @@ pub fn run(args: &[String]) {
                 let written = src.get(a..b).unwrap_or("").trim_matches('"').to_string();
                 let p = PathBuf::from(&written);
                 let name = p.file_name().and_then(|x| x.to_str()).unwrap_or("");
-                let f = name.trim_start_matches('f').trim_end_matches(".inc");
+                let f = if name == "stdgates.inc" { "77" } else { name.trim_start_matches('f').trim_end_matches(".inc") };
                 if let Ok(rel) = p.strip_prefix(&root) {
                     let d = rel.components().next().map(|c| c.as_os_str().to_string_lossy().trim_start_matches('d').to_string()).unwrap_or_default();
                     unread.push(format!("XF{d}:{f}"));
